@@ -245,6 +245,9 @@ pub fn request(w: &mut World, r: &mut Rng, kind: &'static str, n: u64, n2: u64, 
     w.conn.as_user(uid, gid);
     let set_uid = *r.pick(IDS);
     let set_gid = *r.pick(IDS);
+    // which owner ids a SETATTR sets: both (chown u:g), only the user, only the group; plus unrelated bits
+    let (set_u, set_g) = *r.pick(&[(true, true), (true, true), (true, false), (false, true)]);
+    let set_extra = if r.chance(1, 2) { kconst("FATTR_MODE") } else { 0 };
     w.trace.push(format!("{}(ino={:#x}, ino2={:#x}, name={:?}, uid={}, gid={})", kind, n, n2, String::from_utf8_lossy(name), uid, gid));
     let route = w.m.route(n);
     let route2 = w.m.route(n2);
@@ -261,7 +264,10 @@ pub fn request(w: &mut World, r: &mut Rng, kind: &'static str, n: u64, n2: u64, 
         "create" => entry = Some(w.conn.create(n, name, libc::O_RDWR as u32, 0o644, 0).map(|x| x.0)),
         "link" => entry = Some(w.conn.link(n, n2, name)),
         "getattr" => attr = Some(w.conn.getattr(n, None)),
-        "setattr" => attr = Some(w.conn.setattr(n, kconst("FATTR_UID") | kconst("FATTR_GID"), &[("uid", set_uid as u64), ("gid", set_gid as u64)])),
+        "setattr" => {
+            let valid = if set_u { kconst("FATTR_UID") } else { 0 } | if set_g { kconst("FATTR_GID") } else { 0 } | set_extra;
+            attr = Some(w.conn.setattr(n, valid, &[("uid", set_uid as u64), ("gid", set_gid as u64), ("mode", 0o640)]))
+        }
         "readdir" => dirents = Some(w.conn.readdir(n, 0, 0, 4096, false)),
         "readdirplus" => dirents = Some(w.conn.readdir(n, 0, 0, 8192, true)),
         "unlink" => status = Some(w.conn.unlink(n, name)),
@@ -581,10 +587,14 @@ pub fn request(w: &mut World, r: &mut Rng, kind: &'static str, n: u64, n2: u64, 
                     ),
                 ));
             }
-            if kind == "setattr" && (c.set_uid != e2i(eff, set_uid) || c.set_gid != e2i(eff, set_gid)) {
+            // every owner id the request sets must arrive translated (a field whose FATTR bit is unset is undefined)
+            if kind == "setattr" && ((set_u && c.set_uid != e2i(eff, set_uid)) || (set_g && c.set_gid != e2i(eff, set_gid))) {
                 return Err((
-                    "C14:setattr-owner".into(),
-                    format!("setattr owner ({}, {}) under mapping {:?} must reach the backend as ({}, {}), backend saw ({}, {})", set_uid, set_gid, eff, e2i(eff, set_uid), e2i(eff, set_gid), c.set_uid, c.set_gid),
+                    format!("C14:setattr-owner:{}", match (set_u, set_g) { (true, true) => "uid+gid", (true, false) => "uid-only", _ => "gid-only" }),
+                    format!(
+                        "setattr (sets uid: {}, gid: {}) owner ({}, {}) under mapping {:?} must reach the backend as ({}, {}), backend saw ({}, {})",
+                        set_u, set_g, set_uid, set_gid, eff, e2i(eff, set_uid), e2i(eff, set_gid), c.set_uid, c.set_gid
+                    ),
                 ));
             }
             // ---- replies
